@@ -1181,12 +1181,11 @@ class Sum(Expression):
 
         # Special case when ranges cover
         if isinstance(expression, Probability) and not expression.parents:  # i.e., no conditions
-            children = {
-                child.get_base(): child
-                for child in expression.children
-                # FIXME what happens if same name appears with multiple different counterfactual variables?
-                #  this should actually evaluate to zero since that's impossible
-            }
+            children = {child.get_base(): child for child in expression.children}
+            if len(children) != len(expression.children):
+                # several children share a name (copies of a variable in different worlds):
+                # summing over that name does not marginalize any one of them out
+                return self
             if ranges == set(children):
                 return One()
             elif ranges > set(children):
